@@ -4,9 +4,18 @@ Import ListNotations.
 Local Open Scope Z_scope.
 
 (** spec on implementation output: the independent reader accepts the object and the layout is consistent *)
+(* the auxiliary record of each section symbol (.text/.data/.bss, records 1..3) repeats the section's raw size in its
+   first four bytes (PE/COFF "auxiliary format 5: section definitions") *)
+Definition sec_aux_ok (o : coff_obj) : bool :=
+  match o_symbols o, o_sections o with
+  | _ :: st :: sd :: sb :: _, [t; d; b] =>
+      forallb (fun '(y, sec) => (y_naux y =? 1) && (le_decode (firstn 4 (y_aux y)) =? s_rawsize sec)) [(st, t); (sd, d); (sb, b)]
+  | _, _ => false
+  end.
+
 Definition check_c08_read (f : list Z) : Z :=
   match coff_read f with
-  | Some o => if wellformed f o then 0 else 1
+  | Some o => if wellformed f o && sec_aux_ok o then 0 else 1
   | None => 2
   end.
 
